@@ -76,7 +76,8 @@ def prepare_stack(work, plan):
         dirs.append(p)
     out = os.path.join(d, "out")
     size = out_size(plan["code"], plan["insize"])
-    vd.write_info(out, size, plan["chunk"], ch, plan["out_dtype"], sharding=plan.get("sharding"))
+    vd.write_info(out, size, plan["chunk"], ch, plan["out_dtype"], encoding=plan.get("encoding", "raw"),
+                  block=plan.get("block"), sharding=plan.get("sharding"))
     argv = dirs + [out, "--input-orientation", plan["code"]] + vd.storage_args(plan)
     return {"dir": d, "out": out, "argv": argv, "channels": ch, "outsize": size, "dirs": dirs,
             "code": plan["code"]}
